@@ -7,9 +7,10 @@ Transcribed (kapacitor_loopback.go, task_master.go `WriteKapacitorPoint`, task.g
   `SetName(n.Measurement)` each only when the property is not "", then `tags = p.Tags().Copy(); tags[k] = v` for every static tag
   (`setTag`: tags are kept as a list sorted by key), then `tm.WriteKapacitorPoint(p)`; an error of that call is logged and the point
   is DROPPED (`Loop.point`, `lstep … .loop`).
-* `KapacitorLoopbackNode.BatchPoint` (the node below a BATCH task's pipeline): a NEW point message with name = the batch's name
-  (`n.begin.Name()` — the `measurement` property is not read on this path), `n.Database`, `n.RetentionPolicy`, the batch point's
-  fields / time and its tags + the static tags (`Loop.batchPoint`). A batch task has no fork: it never receives what is written
+* `KapacitorLoopbackNode.BatchPoint` (the node below a BATCH task's pipeline): a NEW point message with name = the node's
+  `measurement` property, or the batch's name (`n.begin.Name()`) when it is "" (since the `fix:` commit recorded in
+  findings/C02.txt; at the snapshot the property was not read on this path: `Loop.batchPointOld`), `n.Database`,
+  `n.RetentionPolicy`, the batch point's fields / time and its tags + the static tags (`Loop.batchPoint`). A batch task has no fork: it never receives what is written
   to the TaskMaster; for the routing it is just one more writer (op `.batch`).
 * `pipeline.KapacitorLoopbackNode.validate`: database and retention policy must be given — a definition with such a node is refused
   at task creation, long before `StartTask`; the model treats an invalid loop as absent (`Loop.valid`).
@@ -65,6 +66,11 @@ def Loop.point (L : Loop) (p : Point) (m : Msg) : Point :=
 
 /-- `KapacitorLoopbackNode.BatchPoint` + `WriteKapacitorPoint` for one point of a batch called `bname`. -/
 def Loop.batchPoint (L : Loop) (bname : String) (r : RawPoint) : Point :=
+  { id := r.id, db := L.db, rp := L.rp, name := if L.name != "" then L.name else bname, pass := r.pass,
+    pl := { time := r.pl.time, tags := L.setTags r.pl.tags, fields := r.pl.fields } }
+
+/-- … as it was at the snapshot: the `measurement` property was ignored on batch edges (kept for the counterexample theorem). -/
+def Loop.batchPointOld (L : Loop) (bname : String) (r : RawPoint) : Point :=
   { id := r.id, db := L.db, rp := L.rp, name := bname, pass := r.pass,
     pl := { time := r.pl.time, tags := L.setTags r.pl.tags, fields := r.pl.fields } }
 
